@@ -7,6 +7,7 @@ package olareg
 // acknowledged update is lost. C12: no schedule hangs the registry. C13: same workloads, -race build.
 
 import (
+	"bytes"
 	"context"
 	"encoding/json"
 	"fmt"
@@ -55,20 +56,29 @@ type histEv struct {
 }
 
 type concRun struct {
-	w        *World
-	seq      int64
-	hist     []histEv
-	acked    map[string]map[string]bool     // repo -> manifest digests acknowledged (201)
-	tagged   map[string]map[string][]string // repo -> tag -> digests pushed under it (acknowledged or in flight)
-	delMan   map[string]map[string]bool     // repo -> digests some client tries to delete
-	delTag   map[string]map[string]bool
-	subj     map[string]map[string]string // repo -> artifact digest -> subject
-	tagAck   map[string]bool              // repo + " " + tag: some push under this tag was acknowledged
-	inflight int
-	closing  bool
-	done     []bool
-	shared   map[int]*sharedSess
-	uploaded map[string]map[string]bool // repo -> blob digests whose upload was acknowledged
+	w          *World
+	seq        int64
+	hist       []histEv
+	acked      map[string]map[string]bool     // repo -> manifest digests acknowledged (201)
+	tagged     map[string]map[string][]string // repo -> tag -> digests pushed under it (acknowledged or in flight)
+	delMan     map[string]map[string]bool     // repo -> digests some client tries to delete
+	delTag     map[string]map[string]bool
+	subj       map[string]map[string]string // repo -> artifact digest -> subject
+	tagAck     map[string]bool              // repo + " " + tag: some push under this tag was acknowledged
+	inflight   int
+	closing    bool
+	done       []bool
+	shared     map[int]*sharedSess
+	uploaded   map[string]map[string]bool // repo -> blob digests whose upload was acknowledged
+	stable     map[string]string          // repo + " " + tag -> digest: established by the prologue, touched by no client
+	stableBlob map[string]bool            // repo + " " + digest: config/layers of the manifests behind those tags
+	cold       bool                       // the server was restarted between the prologue and the clients
+}
+
+// also lists the properties whose statement a violated quiescent or stable-state check contradicts besides C11: the
+// statements of C02, C03 and C07 quantify over all histories, concurrent ones included; C10 over restarts
+func (c *concRun) speaks(extra ...string) []string {
+	return append([]string{"C11"}, extra...)
 }
 
 func (c *concRun) stamp() int64 { c.seq++; return c.seq }
@@ -360,6 +370,45 @@ func (c *concRun) cGet(client int, repo, tag, digest string) {
 	call := c.stamp()
 	r := w.do(reqSpec{method: "GET", path: "/v2/" + repo + "/manifests/" + ref, hdr: http.Header{"Accept": {mtOCIManifest, mtOCIIndex, mtDockManifest, mtDockList}}, repos: []string{repo}})
 	c.record(client, in, call, linOut{Code: r.Code, Digest: r.H.Get("Docker-Content-Digest")})
+	if want, ok := c.stable[repo+" "+tag]; ok && tag != "" && !c.closing && !r.Panicked {
+		// a tag the prologue established and no client pushes, deletes or removes the manifest of: every order of the
+		// concurrent requests leaves it alone
+		if r.Code != 200 || r.H.Get("Docker-Content-Digest") != want {
+			props := c.speaks("C02", "C03")
+			what := "untouched tag"
+			if c.cold {
+				props = c.speaks("C02", "C03", "C10")
+				what = "untouched tag after a restart"
+			}
+			w.x.viol(props, "conc.stable-read", what, fmt.Sprintf("%s: tag %s -> %s was established before the concurrent phase and no client touches it; a concurrent GET answered %d %s", repo, tag, want, r.Code, r.H.Get("Docker-Content-Digest")))
+		}
+		w.x.out.probe("conc-stable-read")
+	}
+}
+
+// cBlobRead reads a blob the prologue uploaded and a permanently tagged image references: nothing a client or a
+// collection does may remove it, so every order of the concurrent requests answers 200 with the bytes.
+func (c *concRun) cBlobRead(client int, repo string, o *Obj) {
+	w := c.w
+	if !c.stableBlob[repo+" "+o.digest("")] {
+		return
+	}
+	method := "GET"
+	if client%2 == 1 {
+		method = "HEAD"
+	}
+	r := w.do(reqSpec{method: method, path: "/v2/" + repo + "/blobs/" + o.digest(""), repos: []string{repo}})
+	if c.closing || r.Panicked {
+		return
+	}
+	if r.Code != 200 || (method == "GET" && !bytes.Equal(r.Body, o.data)) {
+		props, what := c.speaks("C02"), "blob of a tagged image"
+		if c.cold {
+			props, what = c.speaks("C02", "C10"), "blob of a tagged image after a restart"
+		}
+		w.x.viol(props, "conc.stable-read", what, fmt.Sprintf("%s: blob %s was uploaded before the concurrent phase and is referenced by a tagged image no client touches; a concurrent %s answered %d (%d bytes)", repo, o.digest(""), method, r.Code, len(r.Body)))
+	}
+	w.x.out.probe("conc-stable-read")
 }
 
 func (c *concRun) cTags(client int, repo string) {
@@ -566,6 +615,8 @@ func (c *concRun) runClient(ci int, ops []Op) {
 			c.cTags(ci, repo)
 		case "refs":
 			c.cRefs(ci, repo, o.digest(""))
+		case "bget":
+			c.cBlobRead(ci, repo, o)
 		case "blob":
 			c.cUpload(ci, repo, o, op)
 		case "cancelget":
@@ -651,6 +702,36 @@ func engineConc(x *X) {
 			c.record(-1, in, call, linOut{Code: 201})
 		}
 	}
+	c.stable = map[string]string{}
+	for repo, mr := range w.m.repos {
+		for t, d := range mr.tags {
+			c.stable[repo+" "+t] = d
+		}
+	}
+	for _, ops := range p.Clients[1:] {
+		for _, op := range ops {
+			repo := w.repoName(op.Repo)
+			switch {
+			case op.K == "man" && op.Tag != "", op.K == "del" && op.Mode == "tag":
+				delete(c.stable, repo+" "+op.Tag)
+			case op.K == "del":
+				for _, t := range sortedKeys(c.stable) {
+					if strings.HasPrefix(t, repo+" ") && c.stable[t] == w.obj(op.Obj).digest("") {
+						delete(c.stable, t)
+					}
+				}
+			}
+		}
+	}
+	c.stableBlob = map[string]bool{}
+	for _, rt := range sortedKeys(c.stable) {
+		repo, _, _ := strings.Cut(rt, " ")
+		if mm := w.m.repos[repo].mans[c.stable[rt]]; mm != nil {
+			for _, b := range mm.view.imgRefs {
+				c.stableBlob[repo+" "+b] = true
+			}
+		}
+	}
 	for _, ops := range p.Clients[1:] {
 		for _, op := range ops {
 			repo := w.repoName(op.Repo)
@@ -702,7 +783,13 @@ func engineConc(x *X) {
 		w.settle()
 		_ = w.close()
 		w.settle()
+		if cm, _ := p.Extra["coldmem"].(bool); cm && w.k.Store == "dir" {
+			// … a memory store layered over the directory the prologue filled
+			w.k.Store, w.name = "memdir", "memdir"
+			x.out.probe("cold-start-mem-over-dir")
+		}
 		w.open()
+		c.cold = true
 		x.out.probe("cold-start")
 	}
 	var wg simrt.WaitGroup
@@ -801,7 +888,7 @@ func (c *concRun) quiescentChecks() {
 			}
 			r := w.do(reqSpec{method: "HEAD", path: "/v2/" + repo + "/manifests/" + d, hdr: http.Header{"Accept": {mtOCIManifest, mtOCIIndex, mtDockManifest, mtDockList}}, repos: []string{repo}})
 			if r.Code != 200 {
-				w.x.viol([]string{"C11"}, "conc.lost-update", "manifest", fmt.Sprintf("%s: manifest %s was acknowledged, nobody deleted it, and it answers %d once everything is quiet", repo, d, r.Code))
+				w.x.viol(c.speaks("C02"), "conc.lost-update", "manifest", fmt.Sprintf("%s: manifest %s was acknowledged, nobody deleted it, and it answers %d once everything is quiet", repo, d, r.Code))
 				return
 			}
 		}
@@ -816,7 +903,7 @@ func (c *concRun) quiescentChecks() {
 					}
 				}
 				if !ok {
-					w.x.viol([]string{"C11"}, "conc.tag-foreign", "tag resolves to a manifest never pushed under it", fmt.Sprintf("%s: tag %s resolves to %s, pushed under it: %v", repo, t, got, c.tagged[repo][t]))
+					w.x.viol(c.speaks("C03"), "conc.tag-foreign", "tag resolves to a manifest never pushed under it", fmt.Sprintf("%s: tag %s resolves to %s, pushed under it: %v", repo, t, got, c.tagged[repo][t]))
 					return
 				}
 			} else if !c.delTag[repo][t] {
@@ -833,7 +920,7 @@ func (c *concRun) quiescentChecks() {
 					}
 				}
 				if !mayVanish && anyAcked {
-					w.x.viol([]string{"C11"}, "conc.lost-update", "tag", fmt.Sprintf("%s: tag %s was pushed (candidates %v), nobody deleted it or all of its manifests, and it answers %d", repo, t, c.tagged[repo][t], r.Code))
+					w.x.viol(c.speaks("C02", "C03"), "conc.lost-update", "tag", fmt.Sprintf("%s: tag %s was pushed (candidates %v), nobody deleted it or all of its manifests, and it answers %d", repo, t, c.tagged[repo][t], r.Code))
 					return
 				}
 			}
@@ -859,7 +946,7 @@ func (c *concRun) quiescentChecks() {
 				for _, d := range descs {
 					r := w.do(reqSpec{method: "HEAD", path: "/v2/" + repo + "/manifests/" + d.Digest, hdr: map[string][]string{"Accept": {mtOCIManifest, mtOCIIndex, mtDockManifest, mtDockList}}, repos: []string{repo}})
 					if r.Code != 200 {
-						w.x.viol([]string{"C11"}, "conc.torn-update", "listed referrer is not a readable manifest", fmt.Sprintf("%s: the referrers of %s list %s, which answers %d once everything is quiet", repo, s, d.Digest, r.Code))
+						w.x.viol(c.speaks("C07"), "conc.torn-update", "listed referrer is not a readable manifest", fmt.Sprintf("%s: the referrers of %s list %s, which answers %d once everything is quiet", repo, s, d.Digest, r.Code))
 						return
 					}
 				}
@@ -873,7 +960,7 @@ func (c *concRun) quiescentChecks() {
 				sort.Strings(bySubj[s])
 				for _, d := range bySubj[s] {
 					if !ok || !got[d] {
-						w.x.viol([]string{"C11"}, "conc.lost-update", "referrer", fmt.Sprintf("%s: artifact %s (subject %s) was acknowledged, nobody deleted it, and the referrers listing lacks it once everything is quiet (listed %d of %d)", repo, d, s, len(got), len(bySubj[s])))
+						w.x.viol(c.speaks("C07"), "conc.lost-update", "referrer", fmt.Sprintf("%s: artifact %s (subject %s) was acknowledged, nobody deleted it, and the referrers listing lacks it once everything is quiet (listed %d of %d)", repo, d, s, len(got), len(bySubj[s])))
 						return
 					}
 				}
@@ -886,7 +973,7 @@ func (c *concRun) quiescentChecks() {
 			for _, d := range sortedKeys(c.uploaded[repo]) {
 				r := w.do(reqSpec{method: "HEAD", path: "/v2/" + repo + "/blobs/" + d, repos: []string{repo}})
 				if r.Code != 200 {
-					w.x.viol([]string{"C11"}, "conc.lost-update", "blob", fmt.Sprintf("%s: the upload of %s was acknowledged, nothing can have collected it, and it answers %d once everything is quiet", repo, d, r.Code))
+					w.x.viol(c.speaks("C02"), "conc.lost-update", "blob", fmt.Sprintf("%s: the upload of %s was acknowledged, nothing can have collected it, and it answers %d once everything is quiet", repo, d, r.Code))
 					return
 				}
 			}
@@ -972,6 +1059,7 @@ func linSig(kinds map[string]bool) string {
 
 type concGen struct {
 	*gen
+	cfg     int
 	anchor  int
 	imgs    []int
 	arts    []int
@@ -996,6 +1084,7 @@ func concSetup(seed uint64, tier string) *concGen {
 		g.p.Objs = append(g.p.Objs, o)
 		return len(g.p.Objs) - 1
 	}
+	cg.cfg = cfg
 	cg.anchor = mk(-1, 0)
 	cg.subject = mk(-1, 1)
 	for i := 0; i < g.r.between(2, 5); i++ {
@@ -1034,10 +1123,14 @@ func (cg *concGen) clientOps(n int, mix string) []Op {
 				ops = append(ops, Op{K: "del", Mode: "man", Repo: repo, Obj: g.r.pick(cg.imgs[0], cg.arts[0], cg.imgs[len(cg.imgs)-1])})
 			}
 		case 8:
-			ops = append(ops, Op{K: "get", Mode: "tag", Repo: repo, Tag: tags[g.r.intn(len(tags))]})
+			ops = append(ops, Op{K: "get", Mode: "tag", Repo: repo, Tag: g.r.str(tags[0], tags[1], tags[2], "anchor", "subject")})
 		case 9:
 			ops = append(ops, Op{K: "get", Mode: "man", Repo: repo, Obj: g.r.pick(cg.imgs[0], cg.arts[0], cg.imgs[len(cg.imgs)-1])})
 		case 10:
+			if g.r.chance(30) {
+				ops = append(ops, Op{K: "bget", Repo: repo, Obj: cg.cfg})
+				break
+			}
 			ops = append(ops, Op{K: "tags", Repo: repo})
 		case 11, 12:
 			ops = append(ops, Op{K: "refs", Repo: repo, Obj: cg.subject})
@@ -1192,6 +1285,41 @@ func planC12(prop string, seed uint64, tier string, idx int) *Plan {
 func coldStart(p *Plan, seed uint64) *Plan {
 	if p.Knobs.Store == "dir" && splitmix(seed^0xc01d)%3 == 0 {
 		p.Extra["cold"] = true
+		if p.Knobs.GCFreqMs < 0 && splitmix(seed^0xc01e)%3 == 0 {
+			p.Extra["coldmem"] = true
+		}
+	}
+	return p
+}
+
+// concSlice is the part of the sequential properties' checks that runs their statement over concurrent histories (the
+// statements of C02, C03, C07 and C10 hold for every history; what is checked is what no order of the requests can
+// explain: see quiescentChecks and conc.stable-read).
+func concSlice(prop string, seed uint64, tier string, idx int) *Plan {
+	p := planC11(prop, seed, tier, 0)
+	p.Profile += " (concurrent histories for " + prop + ")"
+	if p.Knobs.Store == "dir" {
+		switch prop {
+		case "C10":
+			// the first requests a restarted server gets arrive together, and most of them are reads of what was there before
+			p.Extra["cold"] = true
+			delete(p.Extra, "coldmem")
+			for c := 1; c < len(p.Clients); c++ {
+				if h := splitmix(seed ^ uint64(c)*0x9e37); h%10 < 7 {
+					first := Op{K: "get", Mode: "tag", Repo: int(h>>8) % len(p.Repos), Tag: []string{"anchor", "subject"}[(h>>16)%2]}
+					if (h>>20)%2 == 0 {
+						first = Op{K: "bget", Repo: first.Repo, Obj: p.Objs[p.Clients[0][2].Obj].Config}
+					}
+					if p.Repos[first.Repo] != "fresh/new" {
+						p.Clients[c] = append([]Op{first}, p.Clients[c]...)
+					}
+				}
+			}
+		case "C03":
+			if splitmix(seed^0xc01f)%2 == 0 {
+				p.Extra["cold"], p.Extra["coldmem"] = true, true
+			}
+		}
 	}
 	return p
 }
